@@ -31,7 +31,7 @@ def model_pipeline(ix, R, oid, site=SM + '::SimpleForwardModel.model'):
         why.append('returns %s' % fmt(fl, r.value))
     else:
         pic = atom_of(fl, atom_of(fl, at.args[1]).args[0]) if atom_of(fl, at.args[1]) is not None \
-            and atom_of(fl, at.args[1]).head == 'item' else None
+            and atom_of(fl, at.args[1]).head == 'idx' else None
         if pic is None or pic.extra[0] != 'fn:self.path_integral' or \
                 atom_of(fl, at.args[1]).args[1].const() != 0:
             why.append('second element returned is %s' % fmt(fl, at.args[1]))
